@@ -255,7 +255,8 @@ func ruleTemplateBinding(r *Run) {
 			o2.Fail(r.pos(ct.Pos()), "tmplFunctions is not used")
 		} else {
 			a0, a1 := rootName(tfc.Common().Args[0]), rootName(tfc.Common().Args[1])
-			if a0 != "currentTimestamp" || a1 != "currentLine" {
+			// compileTemplate(name, tmpl, currentTimestamp, currentLine): its own accessors, in this order
+			if len(ct.Params) != 4 || originValue(tfc.Common().Args[0]) != ssa.Value(ct.Params[2]) || originValue(tfc.Common().Args[1]) != ssa.Value(ct.Params[3]) {
 				bad = true
 				o2.Fail(r.pos(tfc.Pos()), "tmplFunctions(%s, %s): expected (currentTimestamp, currentLine)", a0, a1)
 			}
